@@ -456,7 +456,11 @@ def run_dag(v, desc, scratch, keys):
                                 pass
                     v.count("cases_with_warm_cache")
                 else:
-                    p0 = daggen.build_pipeline(case, explicit_defaults=(i % 2 == 0))
+                    # (i % 4 == 2: explicit default / bound values are objects with an identity - a rewrite that duplicates them
+                    #  computes with other values)
+                    p0 = daggen.build_pipeline(case, explicit_defaults=(i % 2 == 0), value_wrap=(probes.Ident if i % 4 == 2 else None))
+                    if i % 4 == 2:
+                        v.count("cases_with_identity_valued_defaults_and_bound_values")
         except Exception as e:  # noqa: BLE001
             v.bad(exc_sig(e, "refused-construct"), f"valid DAG refused: {exc_msg(e)}", case=daggen.describe(case))
             continue
